@@ -851,7 +851,37 @@ def pair_spaces(rng):
 
 # 16. einx.rearrange = einx.id
 #     removed_ops.py: "einx.rearrange is deprecated and will be removed in a future release. Please use einx.id instead."
+KEYWORDISH = ["cse", "keepdims", "axis", "out", "dtype", "shift", "shape", "tensors", "parameters", "description_", "self", "args", "kwargs", "name", "size", "k", "x", "y"]
+
+
+def _signature_names():
+    """Parameter names of einx.rearrange / einx.id other than the ones every einx operation reserves: an axis may carry any
+    other name, and its constraint is a keyword argument of that name."""
+    import einx
+    import inspect
+    names = []
+    for f in (einx.rearrange, einx.id):
+        try:
+            ps = inspect.signature(f).parameters.values()
+        except (TypeError, ValueError):
+            continue
+        names += [q.name for q in ps if q.kind in (q.POSITIONAL_OR_KEYWORD, q.KEYWORD_ONLY) and q.name not in ("description", "backend", "graph")]
+    return sorted(set(names))
+
+
 def pair_rearrange(rng):
+    if rng.random() < 0.45:
+        # an axis named like a keyword: its size constraint travels as a keyword argument of that name
+        n = rng.choice(_signature_names() + KEYWORDISH)
+        k = rng.randint(2, 4)
+        form = rng.randrange(4)
+        if form == 0:      # the constraint determines a broadcast axis
+            return mk("rearrange_is_id", "rearrange", f"a b -> a b {n}", f"a b -> a b {n}", data_for(rng, [(2, 3)]), {n: k}, op_l="id")
+        if form == 1:      # the constraint determines a factor of a composition
+            return mk("rearrange_is_id", "rearrange", f"a ({n} z) -> a {n} z", f"a ({n} z) -> a {n} z", data_for(rng, [(2, k * 3)]), {n: k}, op_l="id")
+        if form == 2:      # the constraint contradicts the shape: both must raise
+            return mk("rearrange_is_id", "rearrange", f"a {n} -> {n} a", f"a {n} -> {n} a", data_for(rng, [(2, k)]), {n: k + 3}, op_l="id")
+        return mk("rearrange_is_id", "rearrange", f"a {n} -> {n} a", f"a {n} -> {n} a", data_for(rng, [(2, k)]), {n: k}, op_l="id")
     g = rng.choice([gen.gen_id, gen.gen_id, gen.gen_id_concat, gen.gen_id_ellipsis])
     call = g(rng)
     return mk("rearrange_is_id", "rearrange", call["desc"], call["desc"], data_for(rng, call["shapes"]), call["kwargs"], op_l="id")
